@@ -22,9 +22,9 @@ Lemma c_ReadHeader_cases cs t :
    /\ concat cs' = skipn 32 s /\ chunks_ok cs').
 Proof.
   intros Hok Hlen s.
-  destruct (ReadFull_cread cs t 32 (rd_fuel (cs, t)) Hok) as (cs1 & HRF & Hc1 & Hok1); [lia| |].
-  { unfold rd_fuel, rd_bytes. cbn [fst]. pose proof (chunks_ok_length cs Hok). lia. }
-  fold s in HRF, Hc1. change (Z.to_nat 32) with 32%nat in *.
+  destruct (ReadFull_cread cs t 32 (rd_fuel (cs, t))) as (cs1 & HRF & Hc1 & Hok1 & _); [lia| |].
+  { unfold rd_fuel, rd_bytes. cbn [fst]. lia. }
+  specialize (Hok1 Hok). fold s in HRF, Hc1. change (Z.to_nat 32) with 32%nat in *.
   unfold c_ReadHeader, ReadHeader, fixedSize. rewrite HRF.
   destruct (Z.ltb_spec (zlen s) 32) as [Hs|Hs]; [left|right]; (split; [assumption|]).
   - rewrite firstn32_short by lia. rewrite i64_zlen by assumption.
@@ -55,7 +55,7 @@ Proof.
   cbn [c_walk spec_walk].
   destruct (c_ReadHeader_cases cs t Hok Hlen) as [[Hs HR]|[Hs (cs1 & HR & Hc1 & Hok1)]]; rewrite HR.
   - destruct (Z.ltb_spec (zlen (concat cs)) 32); [|lia].
-    do 2 eexists. split; [reflexivity|]. split; [constructor|reflexivity].
+    do 2 eexists. split; [reflexivity|]. split; [apply chunks_ok_nil|reflexivity].
   - set (s := concat cs) in *.
     destruct (Z.ltb_spec (zlen s) 32); [lia|].
     destruct (header_of_stream s Hb Hs) as (Hv & Hh & Hbs & _ & _).
@@ -67,8 +67,9 @@ Proof.
     { do 2 eexists. split; [reflexivity|]. split; [eassumption|]. rewrite Hc1. reflexivity. }
     destruct (walk_refuses_false hs bs Href) as [Hhs Hbsr]. unfold walk_limit in Hbsr.
     assert (Hrl : zlen rest = zlen s - 32) by (apply zlen_skipn32; lia).
-    destruct (ReadFull_cread cs1 t bs (rd_fuel (cs1, t)) Hok1) as (cs2 & HRF & Hc2 & Hok2); [lia| |].
-    { unfold rd_fuel, rd_bytes. cbn [fst]. pose proof (chunks_ok_length cs1 Hok1). lia. }
+    destruct (ReadFull_cread cs1 t bs (rd_fuel (cs1, t))) as (cs2 & HRF & Hc2 & Hok2 & _); [lia| |].
+    { unfold rd_fuel, rd_bytes. cbn [fst]. lia. }
+    specialize (Hok2 Hok1).
     rewrite HRF. rewrite Hc1 in *.
     destruct (Z.ltb_spec (zlen rest) bs) as [Hshort|Hfull].
     + rewrite firstn_all_z by lia. rewrite skipn_all_z in Hc2 by lia.
